@@ -15,11 +15,12 @@ from harness.runner import Result, library_frame
 ID = "C07"
 LEVEL = "exploration"
 RULE = ("Hypothesis-generated buses: 0..70 gear with arbitrary initial short addresses (duplicates allowed), permitted "
-        "subsets, readdress/dry-run flags, scripted random-address streams (up to 4 draws per unit from a tiny pool, and for "
+        "subsets, readdress/dry-run flags, the three documented parameters passed by keyword / by position (available_addresses, "
+        "readdress, dry_run in that order) / mixed / left out when they have their default value, scripted random-address streams (up to 4 draws per unit from a tiny pool, and for "
         "two or three units a common run of 0..40 identical draws before they differ), faulty units (never stores / stores "
         "but does not answer VERIFY / fails once) anywhere on the bus, with or without clashes; listed buses with a run of "
         "0..40 consecutive clashes x both readdress modes x other (healthy or faulty) units below / above the clashing "
-        "ones; distinct by case "
+        "ones, each met with every way of passing the arguments; distinct by case "
         "fingerprint; non-trivial = at least one clash restart (RANDOMISE issued more than once), or more than 64 units, "
         "or the permitted set is exhausted, or a unit draws 0 or 0xFFFFFF; two runs in flight: (two such buses of 0..6 gear "
         "each with their own permitted sets / flags, advance order) - fixed pairs of buses x a list of advance orders "
@@ -91,6 +92,33 @@ class Job:
         self.before = [u.short for u in units]
 
 
+CALLS = ["keyword", "positional", "first-positional", "two-positional", "defaults-omitted"]
+
+
+def call_commissioning(fn, call, available, readdress, dry):
+    """Commissioning(available_addresses=None, readdress=False, dry_run=False) called the ways its signature and docstring
+    allow: every parameter by keyword, all three by position (in that order), a mix, or with the parameters that have their
+    default value left out."""
+    if call == "positional":
+        return fn(available, readdress, dry)
+    if call == "first-positional":
+        return fn(available, readdress=readdress, dry_run=dry)
+    if call == "two-positional":
+        return fn(available, readdress, dry_run=dry)
+    if call == "defaults-omitted":
+        kw = {}
+        if available is not None:
+            kw["available_addresses"] = available
+        if readdress:
+            kw["readdress"] = readdress
+        if dry:
+            kw["dry_run"] = dry
+        return fn(**kw)
+    if call != "keyword":
+        raise ValueError("unknown call style %r" % (call,))
+    return fn(available_addresses=available, readdress=readdress, dry_run=dry)
+
+
 def prep_single(case):
     sequences, exc = _load()
     units = []
@@ -115,12 +143,14 @@ def prep_single(case):
     # each unit found costs at most ~200 search commands + 3; every scripted draw can cause one restart
     cap = 230 * (n + 1) * (maxdraws + 2) + 400
     bus = Bus(units, max_commands=cap)
-    where = "Commissioning(available=%s, readdress=%s, dry_run=%s) on %d gear (initial addresses %s)" % (
-        "None" if permitted is None else permitted, readdress, dry, n, before if n <= 12 else str(before[:12]) + "...")
+    call = case.get("call", "keyword")
+    where = "Commissioning(available=%s, readdress=%s, dry_run=%s) [arguments: %s] on %d gear (initial addresses %s)" % (
+        "None" if permitted is None else permitted, readdress, dry, call, n,
+        before if n <= 12 else str(before[:12]) + "...")
 
     def seq():
-        return sequences.Commissioning(available_addresses=as_form(permitted, case.get("permitted_form", "list")),
-                                       readdress=readdress, dry_run=dry)
+        return call_commissioning(sequences.Commissioning, call, as_form(permitted, case.get("permitted_form", "list")),
+                                  readdress, dry)
     return Job(case, units, bus, seq, where, cap)
 
 
@@ -378,6 +408,7 @@ def features(case):
         f.append("gear-left-in-initialisation-mode")
     if case["permitted"] is not None:
         f.append("permitted-given-as:" + case.get("permitted_form", "list"))
+    f.append("arguments:" + case.get("call", "keyword"))
     return f
 
 
@@ -425,7 +456,8 @@ def case_strategy(draw, sizes=None):
         permitted = draw(st.lists(st.integers(0, 63), unique=True, max_size=64))
     else:
         permitted = draw(st.permutations(list(range(64))))
-    case = {"units": units, "permitted": permitted, "readdress": readdress, "dry_run": dry}
+    case = {"units": units, "permitted": permitted, "readdress": readdress, "dry_run": dry,
+            "call": draw(st.sampled_from(CALLS))}
     if permitted is not None:
         if draw(st.integers(0, 7)) == 0:
             lo = draw(st.integers(0, 63))
@@ -501,6 +533,10 @@ def reducer(case):
         c = copy.deepcopy(case)
         c["readdress"] = False
         yield c
+    if case.get("call", "keyword") != "keyword":
+        c = copy.deepcopy(case)
+        c["call"] = "keyword"
+        yield c
 
 
 def clash_run_cases(seed, ks=range(41)):
@@ -530,6 +566,8 @@ def clash_run_cases(seed, ks=range(41)):
                 _c([_u(None, lo)] + pair() + [_u(None, hi, fault=fault)], [9, 10, 11], readdress),
                 _c([_u(None, lo)] + pair() + [_u(None, hi)], None, readdress, dry=True),
             ]
+    for i, c in enumerate(out):          # 8 buses per (k, readdress), 5 ways to pass the arguments: every bus meets every way
+        c["call"] = CALLS[(i + seed) % len(CALLS)]
     return out
 
 
@@ -584,7 +622,7 @@ def fixed_buses(seed):
     """Small buses that differ in what Commissioning has to remember: the permitted addresses, the flags, the number of
     gear found so far, whether a clash restarted the search."""
     r = [(seed * 7919 + k * 25717 + 0x3039) & 0xFFFFFF for k in range(8)]
-    return [
+    buses = [
         _c([_u(), _u(), _u()], [3, 4, 5], False),
         _c([_u(), _u(), _u()], [20, 21, 22], False, form="tuple"),
         _c([_u(10), _u(None, [r[0]]), _u(11), _u(None, [r[1]])], [10, 11, 12, 13], False, form="set"),
@@ -598,6 +636,9 @@ def fixed_buses(seed):
         _c([_u(None, [2, 2]), _u(None, [2, 2]), _u(None, [r[4]])], list(range(40, 64)), False, form="range-if-contiguous"),
         _c([_u(5, [r[5]], state="WITHDRAWN", old_random=5), _u(None, [r[6]], state="ENABLED", old_random=0x800000)], [0, 1], False),
     ]
+    for i, c in enumerate(buses):
+        c["call"] = CALLS[(i + seed) % len(CALLS)]
+    return buses
 
 
 # (blocks, cycle): advances in run-length form first, then the cycle repeatedly; a Commissioning run asks the 64
